@@ -137,6 +137,9 @@ Definition exn_error_name (e : outcome) : string :=
 (** a caught exception object is an outcome of the model *)
 Notation exn := outcome (only parsing).
 
+(** a back-off callable: attempt number -> duration (None = outside the model) *)
+Notation interval := (nat -> option Q) (only parsing).
+
 (** loop state held on [self] ([for_counter]) and on its decorators ([while_counter],
     [retry_counter]) while the step body runs; read by [reset_context_counters].  (Before a loop
     has started the Python attributes hold 0 / None / None: the theorems about the generated
